@@ -52,6 +52,19 @@ def k_arches(order):
     return ci
 
 
+def k_free_arches(order):
+    """composeinfo takes any architecture name: names the library's own table does not know."""
+    ci = _ci_base()
+    arches = ["xarch1", "yarch2", "aarch9", "zarch0", "marchx"]
+    v = _variant(ci, "Server", "Server", arches=())
+    v.arches = set()
+    for i in order:
+        v.arches.add(arches[i - 1])
+        v.paths.os_tree[arches[i - 1]] = "Server/%s/os" % arches[i - 1]
+    ci.variants.add(v)
+    return ci
+
+
 def k_path_entries(order):
     ci = _ci_base()
     v = _variant(ci, "Server", "Server", arches=("x86_64", "ppc64le"))
@@ -177,7 +190,10 @@ def k_extra_files(order):
     samples.set_compose(m.compose)
     files = ["Server/x86_64/os/GPL", "Server/x86_64/os/EULA", "Server/x86_64/os/Server/x86_64/os/README", "Server/x86_64/osx/X", "a"]
     for i in order:
-        m.add("Server", "x86_64", files[i - 1], 100 + i, {"sha256": "%x" % i * 64})
+        cks = {"sha256": "%x" % i * 64}
+        cks["md5"] = "%x" % i * 32           # each record's checksum table is filled in an order that is not the sorted one
+        cks["sha1"] = "%x" % i * 40
+        m.add("Server", "x86_64", files[i - 1], 100 + i, cks)
     return m
 
 
@@ -218,7 +234,7 @@ def _between_images(obj):
 
 ORDERED = {"extra_files"}                 # kinds whose part order is content
 BETWEEN = {"extra_files": _between_extra_files, "treeinfo_variants": _between_treeinfo, "images": _between_images}
-KINDS = {"extra_files": k_extra_files, "top_variants": k_top_variants, "child_variants": k_child_variants, "arches": k_arches, "path_entries": k_path_entries,
+KINDS = {"extra_files": k_extra_files, "top_variants": k_top_variants, "child_variants": k_child_variants, "arches": k_arches, "free_arches": k_free_arches, "path_entries": k_path_entries,
          "images": k_images, "rpms": k_rpms, "modules": k_modules, "platforms": k_platforms, "checksums": k_checksums,
          "image_table": k_image_table, "treeinfo_variants": k_treeinfo_variants}
 
@@ -284,6 +300,20 @@ def worker(orders, dumps):
                 if bad:
                     fails.append("%s order %s dump #%d: %s" % (kind, order, t_i + 1, bad))
                     break
+            if kind == "extra_files":
+                # the per-tree partial dump is JSON output of the library as well
+                import io
+                for base in ("Server/x86_64/os", "Server/x86_64/os/", "elsewhere"):
+                    buf = io.StringIO()
+                    try:
+                        obj.dump_for_tree(buf, "Server", "x86_64", base)
+                    except Exception as exc:
+                        fails.append("%s order %s: dump_for_tree(%r): %s: %s" % (kind, order, base, type(exc).__name__, exc))
+                        continue
+                    part = buf.getvalue()
+                    if part != json.dumps(json.loads(part), indent=4, sort_keys=True, separators=(",", ": ")):
+                        fails.append("%s order %s: dump_for_tree(%r) output is not key-sorted JSON with 4-space indentation" % (kind, order, base))
+                        break
             if text.lstrip().startswith("{"):
                 if text != json.dumps(json.loads(text), indent=4, sort_keys=True, separators=(",", ": ")):
                     fails.append("%s order %s: JSON output is not key-sorted with 4-space indentation" % (kind, order))
@@ -304,7 +334,7 @@ def worker(orders, dumps):
 
 def run(ctx):
     ctx.rule = ("TLC enumerates every insertion history of N = 4 (quick) / 5 parts followed by 1-3 dumps (Canon.tla, all N! orders, confluent "
-                "by construction of the state graph); for each of 11 unordered part kinds (top-level and child variants, arch sets, path-table "
+                "by construction of the state graph); for each of 12 unordered part kinds (top-level and child variants, arch sets of known and of free names, path-table "
                 "entries, images per cell, RPMs, module entries, tree platforms, checksums, image-table entries, treeinfo variants) every "
                 "history is replayed on the real classes in separate interpreters started with PYTHONHASHSEED in {0,1,2 | 3,7,42,12345,random}: "
                 "all outputs of one content class must be byte-identical across orders, repeated dumps and hash seeds; JSON key-sorted with "
